@@ -1,6 +1,7 @@
 package docgen
 
 import (
+	"bytes"
 	"encoding/hex"
 	"fmt"
 	"strings"
@@ -10,8 +11,8 @@ import (
 type FamDoc struct {
 	Name    string
 	Bytes   []byte
-	Markers []int  // expected marker sequence
-	Rotate  []int  // expected effective rotation per page
+	Markers []int    // expected marker sequence
+	Rotate  []int    // expected effective rotation per page
 	Media   []string // expected effective MediaBox per page, e.g. "[0 0 595 842]"
 }
 
@@ -122,8 +123,11 @@ func Family(full bool) []FamDoc {
 	}
 	// (2) containers x numbering x extras on a 3-page nested document
 	for _, container := range []string{"classic", "xrefstream", "objstream", "indirect-lengths", "indirect-lengths-zero"} {
-		for _, numbering := range []string{"dense", "gaps", "dangling-free-ref", "dangling-free-ref-gen1", "dangling-free-ref-twice"} {
+		for _, numbering := range []string{"dense", "gaps", "dangling-free-ref", "dangling-free-ref-gen1", "dangling-free-ref-twice", "dangling-popup-ref"} {
 			for _, extra := range []string{"none", "attachment", "outline", "filters", "no-info", "hazard-names", "shared-indirect-attrs"} {
+				if numbering == "dangling-popup-ref" && (!(extra == "none" || extra == "no-info") || strings.HasPrefix(container, "indirect-lengths")) {
+					continue
+				}
 				if numbering == "dangling-free-ref-twice" && (extra != "none" || strings.HasPrefix(container, "indirect-lengths")) {
 					continue
 				}
@@ -141,6 +145,19 @@ func Family(full bool) []FamDoc {
 				case "gaps":
 					d.SkipNumbers(3)
 					d.Add("<</Unused true>>")
+				case "dangling-popup-ref":
+					// as after an incremental update that deleted a popup annotation: the only free object is still
+					// named by /Popup of its parent annotation, below a page
+					d.FreeGen = 1 // a deleted object's entry carries the next generation
+					fr := d.Reserve()
+					for _, nr := range sortedKeys(d.objs) {
+						o := d.objs[nr]
+						if strings.Contains(o.body, "/Type/Page/") {
+							an := d.Add(fmt.Sprintf("<</Type/Annot/Subtype/Text/Rect[10 10 30 30]/Contents(note)/P %s/Popup %s>>", Ref(nr), Ref(fr)))
+							o.body = strings.TrimSuffix(o.body, ">>") + fmt.Sprintf("/Annots[%s]>>", Ref(an))
+							break
+						}
+					}
 				case "dangling-free-ref", "dangling-free-ref-gen1", "dangling-free-ref-twice":
 					// two free objects; a live object references the second one (generation 0 reference); in the
 					// gen1 variant the free entries carry generation 1, as after a real deletion
@@ -217,6 +234,29 @@ func Family(full bool) []FamDoc {
 					boxObj := map[string]int{}
 					resObj := 0
 					pi := 0
+					// the shared font dictionary holds one extra name per page (P1, P2, ...), each used by its page only:
+					// pruning for one page must not take away what the others use
+					nPages := 0
+					for _, nr := range sortedKeys(d.objs) {
+						if strings.Contains(d.objs[nr].body, "/Type/Page/") {
+							nPages++
+						}
+					}
+					extraFonts := ""
+					for k := 1; k <= nPages; k++ {
+						extraFonts += fmt.Sprintf("/P%d 3 0 R", k)
+					}
+					k := 0
+					for _, nr := range sortedKeys(d.objs) {
+						o := d.objs[nr]
+						if o.isStrm && strings.Contains(string(o.stream), " cm Q") {
+							k++
+							o.stream = append(o.stream, []byte(fmt.Sprintf("BT /P%d 9 Tf 10 10 Td (p) Tj ET\n", k))...)
+						}
+						if strings.Contains(o.body, "/Type/Page/") {
+							o.body = strings.Replace(o.body, "/Font<</F1 ", "/Font<<"+extraFonts+"/F1 ", 1)
+						}
+					}
 					for _, nr := range sortedKeys(d.objs) {
 						o := d.objs[nr]
 						if !strings.Contains(o.body, "/Type/Page/") {
@@ -397,7 +437,7 @@ func CryptoDoc(kind, marker string, container string) []byte {
 				o.body = strings.TrimSuffix(o.body, ">>") + fmt.Sprintf("/Annots[%s]>>", Ref(anb))
 			}
 		}
-		img := append([]byte(marker+"-img-")[:12], 0x04, 0x04, 0x04, 0x04)
+		img := append([]byte(marker + "-img-")[:12], 0x04, 0x04, 0x04, 0x04)
 		x := d.AddStream("<</Type/XObject/Subtype/Image/Width 4/Height 4/ColorSpace/DeviceGray/BitsPerComponent 8>>", img)
 		for _, nr := range sortedKeys(d.objs) {
 			o := d.objs[nr]
@@ -421,8 +461,9 @@ func CryptoDoc(kind, marker string, container string) []byte {
 var CryptoKinds = []string{"plain", "nested", "indirect-private", "annotation", "attachment", "outline", "xmp", "filters", "blockaligned", "sigdict", "sigdict-untyped", "streamdict"}
 
 // FormDoc builds small AcroForm documents by hand.
-//   "flat-own-da":      AcroForm without /DA; one top-level text field carrying its own /DA
-//   "nested-inherit-da": AcroForm with /DA; a non-terminal field 'person' (no /FT) with a terminal text kid that inherits /DA
+//
+//	"flat-own-da":      AcroForm without /DA; one top-level text field carrying its own /DA
+//	"nested-inherit-da": AcroForm with /DA; a non-terminal field 'person' (no /FT) with a terminal text kid that inherits /DA
 func FormDoc(variant string) []byte {
 	d := Simple([]PageSpec{{Marker: 1}}, SimpleOpts{Title: "form " + variant})
 	pg := firstPageRef(d)
@@ -589,4 +630,45 @@ func foreignHierarchy() []byte {
 		}
 	}
 	return d.Bytes()
+}
+
+// TwoRevisionFreedPopup: a one-page document (the page has neither contents nor resources) in two revisions, the way
+// an editor deletes an annotation: revision 1 holds a text annotation and its popup; revision 2 (an incremental
+// update with /Prev) rewrites the page without the popup and puts the popup's object number on the free list with
+// generation 1, while the text annotation still says /Popup 5 0 R. A reference to a free object is legal (null).
+func TwoRevisionFreedPopup(withInfo bool) []byte {
+	var b bytes.Buffer
+	b.WriteString("%PDF-1.7\n%\xe2\xe3\xcf\xd3\n")
+	rev1 := []string{
+		"<< /Type /Catalog /Pages 2 0 R >>",
+		"<< /Type /Pages /Kids [3 0 R] /Count 1 >>",
+		"<< /Type /Page /Parent 2 0 R /MediaBox [0 0 300 300] /Annots [4 0 R 5 0 R] >>",
+		"<< /Type /Annot /Subtype /Text /Rect [10 10 30 30] /Contents (a note) /Popup 5 0 R /P 3 0 R >>",
+		"<< /Type /Annot /Subtype /Popup /Rect [40 40 140 100] /Parent 4 0 R /P 3 0 R >>",
+	}
+	info := ""
+	if withInfo {
+		rev1 = append(rev1, "<< /Producer (some other editor) /Title (two revisions) >>")
+		info = fmt.Sprintf(" /Info %d 0 R", len(rev1))
+	}
+	offs := make([]int, len(rev1)+1)
+	for i, o := range rev1 {
+		offs[i+1] = b.Len()
+		fmt.Fprintf(&b, "%d 0 obj\n%s\nendobj\n", i+1, o)
+	}
+	xref1 := b.Len()
+	fmt.Fprintf(&b, "xref\n0 %d\n", len(rev1)+1)
+	b.WriteString("0000000000 65535 f \n")
+	for i := 1; i <= len(rev1); i++ {
+		fmt.Fprintf(&b, "%010d 00000 n \n", offs[i])
+	}
+	fmt.Fprintf(&b, "trailer\n<< /Size %d /Root 1 0 R%s >>\nstartxref\n%d\n%%%%EOF\n", len(rev1)+1, info, xref1)
+	off3 := b.Len()
+	b.WriteString("3 0 obj\n<< /Type /Page /Parent 2 0 R /MediaBox [0 0 300 300] /Annots [4 0 R] >>\nendobj\n")
+	xref2 := b.Len()
+	b.WriteString("xref\n0 1\n0000000005 65535 f \n")
+	fmt.Fprintf(&b, "3 1\n%010d 00000 n \n", off3)
+	b.WriteString("5 1\n0000000000 00001 f \n")
+	fmt.Fprintf(&b, "trailer\n<< /Size %d /Root 1 0 R%s /Prev %d >>\nstartxref\n%d\n%%%%EOF\n", len(rev1)+1, info, xref1, xref2)
+	return b.Bytes()
 }
